@@ -1,17 +1,21 @@
 (* C01 — mesh slicing returns exactly the part of the surface in front of the plane.
    Only statements here; each is closed by `exact <lemma>` from proofs/P_slicing*.v.
-   Conventions: pd n o v = n . (v - o) is the offset of v from the plane (in units of |n|); the code's sign
-   convention is -1 = in front, 0 = on, 1 = behind; H0 tol n o t reads "a corner classified on (|offset| <= tol)
-   lies exactly on the plane", which is how the property text treats the merge tolerance. *)
-From Coq Require Import ZArith Reals List Bool.
+   Conventions: pd n o v = n . (v - o) is the true offset of v from the plane (in units of |n|).  The kernel works on
+   SNAPPED offsets: snap tol d = 0 when |d| <= tol, d otherwise — a vertex closer to the plane than the merge tolerance
+   counts as lying on it (fixes/C01-snap-on-plane-distances.diff).  The code's sign convention is -1 = in front
+   (snapped offset > tol), 0 = on, 1 = behind (snapped offset < -tol).  No theorem below needs an "exactly on the plane"
+   hypothesis any more. *)
+From Coq Require Import ZArith Reals List Bool Permutation.
 From PW Require Import Num NumR Vec NpList Result.
 From PW.model Require Import M_slicing.
-From Coq Require Import Permutation.
 From PW.proofs Require Import P_slicing P_slicing_face P_slicing_cover P_slicing_mesh P_slicing_perface.
 Import ListNotations.
 Local Open Scope R_scope.
 
-(* classification with the merge tolerance *)
+(* snapping and classification with the merge tolerance *)
+Theorem C01_snap : forall tol d, 0 <= tol ->
+  (snap ROps tol d = 0 /\ - tol <= d <= tol) \/ (snap ROps tol d = d /\ (tol < d \/ d < - tol)).
+Proof. exact snap_cases. Qed.
 Theorem C01_classify : forall tol d, 0 <= tol ->
   (vsign ROps tol d = (-1)%Z <-> tol < d) /\ (vsign ROps tol d = 0%Z <-> - tol <= d <= tol) /\
   (vsign ROps tol d = 1%Z <-> d < - tol).
@@ -29,11 +33,11 @@ Proof. exact sign_cases. Qed.
 Theorem C01_face_signs_are_patterns : forall tol n o t, In (tri_signs ROps tol n o t) all_patterns.
 Proof. exact tri_signs_pattern. Qed.
 
-(* faces excluded by faces_to_slice, and faces wholly on or in front, come back with their three corners;
-   selected faces with no corner in front and a corner behind are dropped *)
+(* faces excluded by faces_to_slice, and faces wholly on or in front (every corner's true offset >= -tol), come back with
+   their three corners; selected faces with no corner in front (all offsets <= tol) and a corner behind are dropped *)
 Theorem C01_unselected_kept : forall tol eps n o t, slice_face ROps tol eps n o false t = [t].
 Proof. exact slice_face_unselected. Qed.
-Theorem C01_on_or_in_front_kept : forall tol eps n o m t,
+Theorem C01_on_or_in_front_kept : forall tol eps n o m t, 0 <= tol ->
   (forall k, (k < 3)%nat -> - tol <= pd n o (tget t k)) -> slice_face ROps tol eps n o m t = [t].
 Proof. exact slice_face_keep. Qed.
 Theorem C01_no_corner_in_front_dropped : forall tol eps n o t, 0 <= tol ->
@@ -41,50 +45,54 @@ Theorem C01_no_corner_in_front_dropped : forall tol eps n o t, 0 <= tol ->
   slice_face ROps tol eps n o true t = [].
 Proof. exact slice_face_drop. Qed.
 
-(* soundness: every point of every output triangle lies in the input face, and (selected faces) not behind the plane *)
-Theorem C01_slice_face_sound : forall tol eps n o m t t' x, 0 <= tol -> H0 tol n o t ->
+(* soundness, unconditional: every point of every output triangle lies in the input face, and for a selected face it is
+   not behind the plane by more than the tolerance (corners counted as on the plane may be up to tol behind) *)
+Theorem C01_slice_face_sound : forall tol eps n o m t t' x, 0 <= tol ->
   In t' (slice_face ROps tol eps n o m t) -> in_tri t' x ->
-  in_tri t x /\ (m = true -> 0 <= pd n o x).
+  in_tri t x /\ (m = true -> - tol <= pd n o x).
 Proof. exact slice_face_sound. Qed.
+(* ... on the distances the kernel uses: the point has barycentric weights in the input face whose interpolated snapped
+   distance is >= 0 *)
+Theorem C01_slice_face_sound_snapped : forall tol eps ds m t t' x, 0 <= tol -> snapped3 tol ds ->
+  In t' (slice_face_signs ROps eps ds (signs3 ROps tol ds) m t) -> in_tri t' x ->
+  in_tri t x /\ (m = true -> in_tri_nn t ds x).
+Proof. exact slice_face_signs_sound. Qed.
 
-(* orientation: each output triangle's normal is a non-negative multiple of the input face's (no H0 needed) *)
+(* orientation: each output triangle's normal is a non-negative multiple of the input face's *)
 Theorem C01_slice_face_orient : forall tol eps n o m t t', 0 <= tol ->
   In t' (slice_face ROps tol eps n o m t) ->
   exists lam, 0 <= lam /\ tri_normal t' = vscale ROps lam (tri_normal t).
 Proof. exact slice_face_orient. Qed.
 
-(* the crossing point the code computes (num / denom, denominator not patched) lies on the plane and on the edge's line *)
-Theorem C01_crossing_point : forall eps n o p q, pd n o p <> pd n o q ->
-  int_point ROps eps n o p q = lerp p q (pd n o p / (pd n o p - pd n o q)) /\
-  pd n o (int_point ROps eps n o p q) = 0.
-Proof. intros eps n o p q H. exact (conj (int_point_lerp eps n o p q H) (int_point_on_plane eps n o p q H)). Qed.
+(* the new vertex on an edge p -> q with snapped end distances a <> b is the point with parameter a/(a-b); the
+   interpolated snapped distance vanishes there; the parameter is in (0,1] from a corner in front (a > tol) to a corner not
+   in front (b = 0 or b < -tol) — so an edge ending in an on-corner is cut AT that corner; and when neither end was snapped
+   the new vertex lies exactly on the plane *)
+Theorem C01_crossing_point : forall eps a b p q, a <> b ->
+  int_point ROps eps a b p q = lerp p q (a / (a - b)) /\ a + a / (a - b) * (b - a) = 0.
+Proof. intros eps a b p q H. exact (conj (int_point_lerp eps a b p q H) (crossing_param_zero a b H)). Qed.
+Theorem C01_cut_parameter_in_unit_interval : forall tol a b, 0 <= tol -> tol < a -> b = 0 \/ b < - tol ->
+  0 < a / (a - b) <= 1.
+Proof. intros tol a b Ht Ha Hb. apply param_pos_nonpos; [Lra.lra|destruct Hb; Lra.lra]. Qed.
+Theorem C01_crossing_point_on_plane : forall n o p q, pd n o p <> pd n o q ->
+  pd n o (lerp p q (pd n o p / (pd n o p - pd n o q))) = 0.
+Proof. exact lerp_on_plane. Qed.
 
-(* coverage: every point of the input face strictly in front of the plane lies in some output triangle (points exactly on
-   the plane are covered too unless the face is dropped: a dropped face meets the closed half-space in a corner/edge only) *)
-Theorem C01_slice_face_cover : forall tol eps n o m t x, 0 <= tol -> H0 tol n o t ->
-  in_tri t x -> 0 < pd n o x -> exists t', In t' (slice_face ROps tol eps n o m t) /\ in_tri t' x.
+(* coverage: every point of the input face further than tol in front of the plane lies in some output triangle *)
+Theorem C01_slice_face_cover : forall tol eps n o m t x, 0 <= tol ->
+  in_tri t x -> tol < pd n o x -> exists t', In t' (slice_face ROps tol eps n o m t) /\ in_tri t' x.
 Proof. exact slice_face_cover. Qed.
+(* ... on the distances the kernel uses: every point with positive interpolated snapped distance *)
+Theorem C01_slice_face_cover_snapped : forall tol eps ds m t w0 w1 w2, 0 <= tol -> snapped3 tol ds ->
+  0 <= w0 -> 0 <= w1 -> 0 <= w2 -> w0 + w1 + w2 = 1 -> 0 < wdot ds w0 w1 w2 ->
+  exists t', In t' (slice_face_signs ROps eps ds (signs3 ROps tol ds) m t) /\ in_tri t' (bary t w0 w1 w2).
+Proof. exact slice_face_signs_cover. Qed.
 
 (* area: the vector areas of the outputs add up to a fraction f in [0,1] of the input face's vector area; together with
    soundness, orientation and coverage: the outputs tile the clipped face without overlap *)
-Theorem C01_slice_face_area : forall tol eps n o m t, 0 <= tol -> H0 tol n o t ->
+Theorem C01_slice_face_area : forall tol eps n o m t, 0 <= tol ->
   exists f, 0 <= f <= 1 /\ vsum_normals (slice_face ROps tol eps n o m t) = vscale ROps f (tri_normal t).
 Proof. exact slice_face_area. Qed.
-
-(* without H0 (a corner strictly inside the tolerance band counted as "on"): the cut parameter along an edge from a
-   corner in front (offset a > tol) to a corner not in front (offset b <= tol) is in (0, 1 + tol/(a - tol)].
-   PARTIAL: quantifies the band only; the exact clauses above read "counts as lying on it" as H0. *)
-Theorem C01_slice_face_tolerance_partial : forall tol a b, 0 <= tol -> tol < a -> b <= tol ->
-  0 < a / (a - b) <= 1 + tol / (a - tol).
-Proof. exact cut_param_band. Qed.
-
-(* REFUTED without H0 (known finding C01 / near_band_cut_leaves_face): "no output vertex lies outside the input face it
-   came from" fails when a corner inside the tolerance band is not exactly on the plane.  A face with corner offsets
-   2 (in front), 1/2 (classified on, tol = 1) and -2 (behind) yields the output corner (4/3, 0, 0), beyond the far corner
-   of its edge and outside the face. *)
-Theorem C01_cut_vertex_inside_face_without_H0_refuted :
-  exists tol eps n o t t' v, 0 <= tol /\ In t' (slice_face ROps tol eps n o true t) /\ In v (tri_corners t') /\ ~ in_tri t v.
-Proof. exact cut_vertex_outside_face. Qed.
 
 (* the mesh pipeline (masks, group order, appended vertex numbering, renumbering) is the per-face kernel applied to every
    face: for all vertex lists, face lists and masks, the returned coordinate triangles paired with the returned face
@@ -101,15 +109,17 @@ Theorem C01_slice_mesh_is_per_face : forall tol eps vs fs n o fi r, vs <> [] ->
                 (indexed rows)).
 Proof. exact slice_mesh_is_per_face. Qed.
 
-(* non-vacuity: a face with one corner in front, one on, one behind satisfies H0 and is really cut *)
-Example C01_H0_inhabited :
-  H0 (1/100000000) (V3 0 0 1) (V3 0 0 0) (V3 0 0 1, V3 1 0 0, V3 0 1 (-1)).
+(* non-vacuity: a face and a point of it further than tol in front of the plane *)
+Example C01_cover_inhabited :
+  in_tri (V3 0 0 1, V3 1 0 0, V3 0 1 (-1)) (V3 0 0 1) /\ 1/100000000 < pd (V3 0 0 1) (V3 0 0 0) (V3 0 0 1).
 Proof.
-  intros k Hk. destruct k as [|[|[|k]]]; try (exfalso; Lia.lia); unfold pd, plane_dot; cbn [tget fst snd]; P_vec.vunf; Lra.lra.
+  split; [exact (corner_in_tri (V3 0 0 1, V3 1 0 0, V3 0 1 (-1)) 0 ltac:(Lia.lia))|].
+  unfold pd, plane_dot; P_vec.vunf; Lra.lra.
 Qed.
 
-Definition C01_all := (C01_classify, C01_slice_face_cases, C01_slice_face_cases_corners, C01_face_signs_are_patterns,
+Definition C01_all := (C01_snap, C01_classify, C01_slice_face_cases, C01_slice_face_cases_corners, C01_face_signs_are_patterns,
   C01_unselected_kept, C01_on_or_in_front_kept, C01_no_corner_in_front_dropped,
-  C01_slice_face_sound, C01_slice_face_orient, C01_crossing_point, C01_slice_face_cover, C01_slice_face_area,
-  C01_slice_face_tolerance_partial, C01_slice_mesh_is_per_face, C01_cut_vertex_inside_face_without_H0_refuted).
+  C01_slice_face_sound, C01_slice_face_sound_snapped, C01_slice_face_orient, C01_crossing_point,
+  C01_cut_parameter_in_unit_interval, C01_crossing_point_on_plane, C01_slice_face_cover, C01_slice_face_cover_snapped,
+  C01_slice_face_area, C01_slice_mesh_is_per_face).
 Print Assumptions C01_all.
